@@ -55,7 +55,10 @@ macro_rules! checksum_row {
     };
 }
 
-pub const TOKENS: [&str; 4] = ["a", "0", "x.y_1", "é"];
+pub const TOKENS: [&str; 5] = ["a", "0", "x.y_1", "é", "Ab.C"];
+/// free text that collides with a keyword of the same family in ANOTHER letter case, or carries upper-case letters
+/// (a reader that folds case to recognise keywords must not fold the text it passes through)
+pub const CASE_TEXTS: [&str; 7] = ["No", "NO", "Not-Needed", "Yes", "Commit:ABC", "Vendor", "https://Example.COM/Ticket/Display.html?Id=42"];
 pub const SIZES: [usize; 4] = [0, 1, 42, usize::MAX];
 
 /// Repository locations for the VCS rows (whitespace-free).
@@ -154,7 +157,7 @@ mod origin_row {
         let cats = [None, Some(OriginCategory::Backport), Some(OriginCategory::Vendor), Some(OriginCategory::Upstream), Some(OriginCategory::Other)];
         let mut out = vec![];
         for c in cats {
-            for t in TOKENS.iter().chain(["https://example.com/p.patch", "Fedora, https://example.com/p", "a, b, c"].iter()) {
+            for t in TOKENS.iter().chain(["https://example.com/p.patch", "Fedora, https://example.com/p", "a, b, c", "Vendor", "Upstream, x", "Commit:ABC"].iter()) {
                 if !t.contains(' ') {
                     out.push((c, Origin::Commit(t.to_string())));
                 }
@@ -411,12 +414,12 @@ pub fn rows() -> Vec<TypeRow> {
         v.push(record_row!(Forwarded, "dep3::Forwarded",
             values = {
                 let mut out = vec![Forwarded::No, Forwarded::NotNeeded];
-                for t in TOKENS.iter().chain(["yes", "https://example.com/bug/1"].iter()) {
+                for t in TOKENS.iter().chain(["yes", "https://example.com/bug/1"].iter()).chain(CASE_TEXTS.iter()) {
                     out.push(Forwarded::Yes(t.to_string()));
                 }
                 out
             },
-            canonical = ["no", "not-needed", "yes", "https://example.com/bug/1"]));
+            canonical = ["no", "not-needed", "yes", "https://example.com/bug/1", "No", "NOT-NEEDED", "https://Example.COM/Ticket/Display.html?Id=42"]));
         v.push(enum_row!(OriginCategory, "dep3::OriginCategory",
             [OriginCategory::Backport, OriginCategory::Vendor, OriginCategory::Upstream, OriginCategory::Other],
             keywords = ["backport", "vendor", "upstream", "other"], case_insensitive = false));
@@ -427,6 +430,9 @@ pub fn rows() -> Vec<TypeRow> {
                     out.push(Origin::Commit(t.to_string()));
                     out.push(Origin::Other(t.to_string()));
                 }
+                for t in CASE_TEXTS {
+                    out.push(Origin::Other(t.to_string()));
+                }
                 out
             },
             canonical = ["commit:abc123", "https://example.com/p.patch", "é"]));
@@ -435,6 +441,9 @@ pub fn rows() -> Vec<TypeRow> {
                 let mut out = vec![];
                 for t in TOKENS.iter().chain(["https://example.com/c/1", "1.2.3"].iter()) {
                     out.push(AppliedUpstream::Commit(t.to_string()));
+                    out.push(AppliedUpstream::Other(t.to_string()));
+                }
+                for t in CASE_TEXTS {
                     out.push(AppliedUpstream::Other(t.to_string()));
                 }
                 out
